@@ -346,6 +346,11 @@ func (p *provider) createAllSingletonsWithContext(ctx context.Context) error {
 			continue
 		}
 
+		// Group nodes only order the members before the group's consumers
+		if _, isGroup := node.Provider.(*groupProvider); isGroup {
+			continue
+		}
+
 		descriptor, ok := node.Provider.(*Descriptor)
 		if !ok {
 			return &ValidationError{
